@@ -33,6 +33,8 @@ pub enum LenClass {
     I32Max,
     /// an arbitrary value
     Value(i32),
+    /// (k << shift) + low: far above the maximum, but small when only the first shift/7 groups are read
+    HighBits { shift: u8, k: u8, low: u8 },
 }
 
 #[derive(Clone, Debug, Serialize, Deserialize, PartialEq)]
@@ -137,6 +139,13 @@ fn len_value(class: &LenClass, true_len: i32, max: i32) -> i32 {
         LenClass::TwiceMax => max.saturating_mul(2),
         LenClass::I32Max => i32::MAX,
         LenClass::Value(v) => *v,
+        LenClass::HighBits { shift, k, low } => {
+            let shift = [14u32, 21, 28][usize::from(*shift) % 3];
+            let k = i64::from((*k).max(1)) % (1i64 << (31 - shift).min(7));
+            let v = (k.max(1) << shift) + i64::from((*low).max(1));
+            // keep it above every configured maximum (<= 2^20): otherwise it is a legal length
+            if v <= i64::from(max) || v > i64::from(i32::MAX) { i32::MAX - i32::from(*low) } else { v as i32 }
+        }
     }
 }
 
@@ -470,6 +479,8 @@ impl Check for C04 {
             Just(LenClass::I32Max),
             any::<i32>().prop_map(LenClass::Value),
             (-300i32..70_000).prop_map(LenClass::Value),
+            (any::<u8>(), any::<u8>(), 1u8..60).prop_map(|(shift, k, low)| LenClass::HighBits { shift, k, low }),
+            (any::<u8>(), any::<u8>(), 1u8..60).prop_map(|(shift, k, low)| LenClass::HighBits { shift, k, low }),
         ];
         let mutation = prop_oneof![
             1 => Just(Mutn::None),
